@@ -214,7 +214,9 @@ def convert_legacy_task(
         new: object
         for a in args:
             if isinstance(a, dict):
-                new = Dict(a)
+                new = Dict(
+                    {k: convert_legacy_task(None, v, all_keys) for k, v in a.items()}
+                )
             else:
                 new = convert_legacy_task(None, a, all_keys)
             new_args.append(new)
